@@ -261,6 +261,30 @@ def tab2(ctx):
         if not ok:
             r.report("TAB-2|width|%s" % node, fn_loc(b), b.path,
                      "masks of node %s cover %s, expected the %d low bits %s" % (node, bin(union), len(rows), bin(want)))
+    # second copies of the table: any constant array of (NodeKind, u8) pairs with one row per feature must repeat to_node_mask
+    for cb in lib.bodies:
+        if cb.kind not in ("const", "static", "assoc_const") or cb.in_test_mod() or not cb.hir:
+            continue
+        arr = hirq.strip(cb.hir["body"])
+        if arr.get("e") != "array" or len(arr.get("items", [])) != len(ft):
+            continue
+        rows = []
+        for it in arr["items"]:
+            it = hirq.strip(it)
+            if it.get("e") == "tup" and len(it["items"]) == 2:
+                a0, c0 = hirq.strip(it["items"][0]), hirq.strip(it["items"][1])
+                if a0.get("e") == "path" and (a0.get("path") or "").startswith("asca::seg::NodeKind::") and c0.get("e") == "lit" and c0.get("lk") == "int":
+                    rows.append((variant_of(a0["path"]), c0["lit"], it.get("ln")))
+        if len(rows) != len(ft):
+            continue
+        for i, f in enumerate(ft):
+            want = tbl.get(f, (None, None, None))[:2]
+            ok = rows[i][:2] == tuple(want)
+            r.inst("%s[%d] (%s) repeats to_node_mask: %s" % (cb.path.rsplit("::", 1)[-1], i, f, rows[i][:2]), fn_loc(cb, rows[i][2]), "ok" if ok else "report", nontrivial=False)
+            if not ok:
+                r.report("TAB-2|copy|%s|%s" % (cb.path.rsplit("::", 1)[-1], f), fn_loc(cb, rows[i][2]), cb.path,
+                         "row %d of the constant table %s gives feature %s the pair %s, but FType::to_node_mask says %s: code reading the table and code calling to_node_mask disagree on that feature"
+                         % (i, cb.path.rsplit("::", 1)[-1], f, rows[i][:2], tuple(want)))
     for node, cname in (("Labial", "LAB_MSK"), ("Coronal", "COR_MSK"), ("Dorsal", "DOR_MSK"), ("Pharyngeal", "PHR_MSK")):
         if cname not in pc:
             raise AnchorMissing("Place::%s not found" % cname)
